@@ -41,8 +41,10 @@ fn run_check(id: &str, tier: Tier) -> i32 {
 		"C14" => checks::c14::run(tier, &reg),
 		"C15" => checks::c15::run(tier),
 		"C16" => checks::c16::run(tier, &reg),
+		"C17" => checks::c17::run(tier),
 		"C18" => checks::c18::run(tier, &reg),
 		"C19" => checks::c19::run(tier, &reg),
+		"C20" => checks::c20::run(tier),
 		_ => {
 			eprintln!("unknown property {}", id);
 			return 2;
@@ -74,8 +76,10 @@ fn run_replay(id: &str, path: &str) -> i32 {
 		"C14" => checks::c14::replay(&reg, case),
 		"C15" => checks::c15::replay(case),
 		"C16" => checks::c16::replay(&reg, case),
+		"C17" => checks::c17::replay(case),
 		"C18" => checks::c18::replay(&reg, case),
 		"C19" => checks::c19::replay(&reg, case),
+		"C20" => checks::c20::replay(case),
 		_ => {
 			eprintln!("no replayer for sub-check {}", sub);
 			return 2;
